@@ -180,6 +180,14 @@ def add_extras(files: T.Dict[str, str], setup_args: T.Sequence[str], seed: int,
             post.append("x_named = dependency('xnamed')")
             deps_named.append('x_named')
     all_deps = deps_named + deps_anon
+    ext_deps: T.List[str] = []
+    if feat('external_libs', 0.6):
+        # shared libraries found by absolute path in several non-system directories: their directories end up in the
+        # build rpath of every target that uses them (a collection that must keep a stable order)
+        for i in _perm(rng, range(rng.randint(3, 6))):
+            files[f'xext/d{i}/libxe{i}.so'] = ''
+            post.append(f"x_e{i} = meson.get_compiler('c').find_library('xe{i}', dirs: meson.current_source_dir() / 'xext/d{i}')")
+            ext_deps.append(f'x_e{i}')
 
     def depkw(k: int = 3) -> str:
         if not all_deps:
@@ -229,6 +237,9 @@ def add_extras(files: T.Dict[str, str], setup_args: T.Sequence[str], seed: int,
                 f"c_args: {qlst(_some(rng, ['-DXE_B', '-DXE_A', '-UXE_C']))}, link_args: ['-Wl,-z,now', '-Wl,-O1'], install: true, "
                 f"install_rpath: '/opt/x/lib:/opt/y/lib', build_rpath: '/tmp/xb', implicit_include_directories: {rng.choice(['true', 'false'])}, "
                 f"extra_files: files('xsrc/README.x', 'xdata/d1.txt'){objs})")
+    if ext_deps:
+        post.append(f"x_extexe = executable('xextexe', 'xsrc/xmain.c', dependencies: {lst(ext_deps)})")
+        post.append(f"x_extlib = shared_library('xextlib', 'xsrc/xmod.c', dependencies: {lst(_perm(rng, ext_deps)[:3])})")
     if use_cpp:
         files['xsrc/xcpp.cpp'] = 'int xcpp() { return 1; }\n'
         files['xsrc/xcppmain.cpp'] = 'int xcpp(); int main() { return xcpp() - 1; }\n'
